@@ -20,7 +20,7 @@ Inductive fault := FNone | FEof | FReset | FAgain.
 Inductive pstate := PVersion | PSecType | PAuth | PInit | PNormal | PInitShared.
 (* DNonblock is not a decision of the application: rfbSetNonBlocking fails on the new descriptor, the
    connection never gets as far as newClientHook *)
-Inductive decision := DAccept | DHold | DRefuse | DNonblock.
+Inductive decision := DAccept | DHold | DRefuse | DNonblock | DNonblockLate.
 Inductive event := ENew (k : nat) | EGone (k : nat) | EClose (k : nat).
 
 (* what a connection can hold *)
@@ -860,7 +860,7 @@ Definition accept (d : decision) (pre : list Z) (peer_open : bool) (s : screen) 
     | DHold => updp k (pset_hold true) s4
     | DAccept => s4
     | DRefuse => connection_gone k (close_client k s4)
-    | DNonblock => s4
+    | DNonblock | DNonblockLate => s4
     end
   end.
 
@@ -875,7 +875,7 @@ Definition dead_conn (s : screen) : screen :=
   let k := length (s_conns s) in
   set_log (EClose k :: s_log s) (set_conns (s_conns s ++ [dead_conn_rec k]) s).
 Definition accept_or_fail (d : decision) (pre : list Z) (peer_open : bool) (s : screen) : screen :=
-  match d with DNonblock => dead_conn s | _ => accept d pre peer_open s end.
+  match d with DNonblock | DNonblockLate => dead_conn s | _ => accept d pre peer_open s end.
 
 (* ------------------------------------------------------------------ event loop *)
 Definition readable (s : screen) (k : nat) : bool :=
@@ -896,14 +896,31 @@ Definition client_loop (rd : list nat) (s : screen) : screen :=
     | None => s
     end) (s_order s) s.
 
-Definition check_fds (s : screen) : screen :=
+(* inetd mode (screen->inetdSock set, no listening socket): the model state is "not listening, one connection
+   waiting"; rfbCheckFds hands the descriptor to rfbNewClientConnection BEFORE its select(), so what the peer
+   has already sent is served in the same call; inetdInitDone = TRUE afterwards (nothing waits any more) *)
+Definition check_fds_listen (s : screen) : screen :=
   let rd := filter (readable s) (s_order s) in
   match (if s_listening s then s_pending s else []) with
   | (d, pre, po) :: rest =>
     let s1 := accept_or_fail d pre po (set_pending rest s) in
-    match rd with [] => s1 | _ => client_loop rd s1 end
+    (* rfbNewConnectionFromSock returned FALSE (its own rfbSetNonBlocking failed): "if (!rfbProcessNewConnection)
+       return -1;" - no client is served in this call.  Every other outcome, including a NULL from
+       rfbNewClient, returns TRUE and the loop goes on. *)
+    match d with
+    | DNonblock => s1
+    | _ => match rd with [] => s1 | _ => client_loop rd s1 end
+    end
   | [] =>
     match rd with [] => s | _ => client_loop rd s end
+  end.
+Definition check_fds (s : screen) : screen :=
+  match (if s_listening s then [] else s_pending s) with
+  | (d, pre, po) :: _ =>
+    let s1 := accept_or_fail d pre po (set_pending [] s) in
+    let rd := filter (readable s1) (s_order s1) in
+    match rd with [] => s1 | _ => client_loop rd s1 end
+  | [] => check_fds_listen s
   end.
 
 (* the second half of rfbProcessEvents: update every client, reap the closed ones *)
@@ -921,10 +938,20 @@ Definition process_events (s : screen) : screen :=
 (* rfbShutdownServer(screen, TRUE): iterates with closed clients too (commit 8cd7191) *)
 Definition shutdown_one (s : screen) (k : nat) : screen :=
   if is_open s k then connection_gone k (close_client k s) else connection_gone k s.
+(* rfbShutdownSockets: FD_CLR(listenSock), close, listenSock = -1 (peers still waiting on it are never
+   served).  inetd mode: the descriptor is closed here only if rfbCheckFds never handed it over
+   ("if (!inetdInitDone)", commit 284406e) - then it ends as a descriptor closed once that never was a client;
+   once handed over it belongs to its client record and is NOT closed again. *)
+Definition shutdown_sockets (s1 : screen) : screen :=
+  if s_listening s1
+  then set_pending [] (set_listening false (set_fds (remove_fd LISTEN_FD (s_allfds s1)) (s_maxfd s1) s1))
+  else match s_pending s1 with
+       | [] => s1
+       | _ :: _ =>
+         set_pending [] (dead_conn (set_fds (remove_fd (fd_of (length (s_conns s1))) (s_allfds s1)) (s_maxfd s1) s1))
+       end.
 Definition shutdown_server (s : screen) : screen :=
-  let s1 := fold_left shutdown_one (s_order s) s in
-  (* rfbShutdownSockets: FD_CLR(listenSock), close, listenSock = -1 *)
-  if s_listening s1 then set_listening false (set_fds (remove_fd LISTEN_FD (s_allfds s1)) (s_maxfd s1) s1) else s1.
+  shutdown_sockets (fold_left shutdown_one (s_order s) s).
 
 (* rfbScreenCleanup: same iterator *)
 Definition cleanup_one (s : screen) (k : nat) : screen :=
@@ -960,13 +987,20 @@ Inductive op :=
   | OAppXvp (k : nat)
   | OMark | OBell | OCutText | OCutText8
   | OFault (i : nat) (f : fault)
-  | OShutdown | OCleanup.
+  | OShutdown | OCleanup
+  | OInetd (d : decision) (pre : list Z) (peer_open : bool).   (* the process was started by inetd: rfbInitSockets with inetdSock *)
 
 Definition step (s : screen) (o : op) : screen :=
   if s_hung s || s_cleaned s then s else
   match o with
-  | OAccept d pre po => accept_or_fail d pre po s
-  | OLAccept d pre po => set_pending (s_pending s ++ [(d, pre, po)]) s
+  | OAccept d pre po =>
+    (* a direct rfbNewClient while the inetd descriptor still waits would get a record number the
+       correspondence run cannot line up: outside the fragment *)
+    match (if s_listening s then [] else s_pending s) with
+    | [] => accept_or_fail d pre po s
+    | _ :: _ => set_unmod true s
+    end
+  | OLAccept d pre po => if s_listening s then set_pending (s_pending s ++ [(d, pre, po)]) s else s
   | OIn k b => updp k (fun p => if p_peer p then pset_inq (p_inq p ++ b) p else p) s
   | OPeerClose k => updp k (pset_peer false) s
   | OPe => process_events s
@@ -981,6 +1015,16 @@ Definition step (s : screen) (o : op) : screen :=
   | OFault i f => set_faults (s_faults s ++ [(i, f)]) s
   | OShutdown => shutdown_server s
   | OCleanup => screen_cleanup s
+  | OInetd d pre po =>
+    (* rfbInitSockets: FD_ZERO(allFds); FD_SET(inetdSock); maxFd = inetdSock; no listening socket.
+       Only as the first thing after the screen is set up (anything else is outside the fragment) *)
+    match s_conns s, s_pending s with
+    | [], [] =>
+      if s_listening s
+      then set_listening false (set_fds [fd_of 0] (fd_of 0) (set_pending [(d, pre, po)] s))
+      else set_unmod true s
+    | _, _ => set_unmod true s
+    end
   end.
 
 Definition init (cfg : config) : screen :=
